@@ -40,12 +40,12 @@ def _lib():
 SCALAR_KINDS = ["int", "str", "float", "optint", "union", "lit", "bounded", "validated"]
 # only used by profiles that ask for them: module-bearing payloads; a list whose items are Optional[spec class]
 # (the element type is then not "a spec class" for the library's purposes)
-EXTRA_KINDS = ["any", "list_optleaf", "list_optint"]
+EXTRA_KINDS = ["any", "list_optleaf", "list_optint", "dict_optint"]
 PLAIN_COLL_KINDS = ["list_int", "dict_int", "set_int"]
 SPEC_KINDS = ["leaf"]
 SPEC_COLL_KINDS = ["list_leaf", "dict_leaf", "list_kitem", "dict_kitem", "klist", "kset"]
 ALL_KINDS = SCALAR_KINDS + PLAIN_COLL_KINDS + SPEC_KINDS + SPEC_COLL_KINDS
-COLL_KINDS = PLAIN_COLL_KINDS + SPEC_COLL_KINDS + ["list_optleaf", "list_optint"]
+COLL_KINDS = PLAIN_COLL_KINDS + SPEC_COLL_KINDS + ["list_optleaf", "list_optint", "dict_optint"]
 
 KIND_NAMES = {
     "int": ["count", "size"],
@@ -72,16 +72,17 @@ KIND_NAMES = {
     "any": ["payload", "extra"],
     "list_optleaf": ["slots"],
     "list_optint": ["opts"],
+    "dict_optint": ["levels"],  # Dict[str, Optional[int]]: falsy values (0, None) the item type cannot rebuild from nothing
 }
 
 FAMILY = {
     "list_int": "seq", "list_leaf": "seq", "list_kitem": "seq", "klist": "seq", "list_optleaf": "seq", "list_optint": "seq",
-    "dict_int": "map", "dict_leaf": "map", "dict_kitem": "map",
+    "dict_int": "map", "dict_leaf": "map", "dict_kitem": "map", "dict_optint": "map",
     "set_int": "set", "kset": "set",
 }
 ITEM_KIND = {
     "list_int": "int", "dict_int": "int", "set_int": "int",
-    "list_leaf": "leaf", "dict_leaf": "leaf", "list_optleaf": "leaf", "list_optint": "optint",
+    "list_leaf": "leaf", "dict_leaf": "leaf", "list_optleaf": "leaf", "list_optint": "optint", "dict_optint": "optint",
     "list_kitem": "kitem", "dict_kitem": "kitem", "klist": "kitem", "kset": "kitem",
 }
 
@@ -152,6 +153,7 @@ GOOD_FNS = {
     "list_int": ["rev", "app9", "empty_list", "ident"],
     "list_optint": ["rev", "app9", "empty_list", "ident"],
     "dict_int": ["withz", "empty_dict", "ident"],
+    "dict_optint": ["withz", "empty_dict", "ident"],
     "set_int": ["add9", "empty_set", "ident"],
     "leaf": ["leaf_bump", "leaf_q", "ident"],
     "kitem": ["kitem_bump", "ident"],
@@ -172,6 +174,7 @@ BAD_FNS = {
     "list_int": ["app_s", "zero"],
     "list_optint": ["app_s", "zero"],
     "dict_int": ["with_badval", "with_badkey", "zero"],
+    "dict_optint": ["with_badval", "with_badkey", "zero"],
     "set_int": ["add_s", "zero"],
     "leaf": ["zero", "none"],
     "kitem": ["zero", "none", "kitem_key"],
@@ -550,6 +553,9 @@ def good_value(src, kind, small=False):
         return ["list", [None if src.chance(0.2) else good_value(src, "leaf") for _ in range(src.randint(0, 2 if small else 3))]]
     if kind == "list_optint":
         return ["list", [src.choice([0, 1, 2, None, None, 3]) for _ in range(src.randint(0, 2 if small else 4))]]
+    if kind == "dict_optint":
+        keys = src.sample(["a", "b", "c", ""], src.randint(0, 2 if small else 3))
+        return ["dict", [[k, src.choice([0, None, 0, 1, 2, None, 5])] for k in keys]]
     if kind == "dict_leaf":
         keys = src.sample(["a", "b", "c", ""], src.randint(0, 2 if small else 3))
         v = ["dict", [[k, good_value(src, "leaf")] for k in keys]]
@@ -620,6 +626,8 @@ def bad_values(kind):
         return [["list", [["leaf", {}], 3]], 5, ["list", [["kitem", {"k": "a"}]]]]
     if kind == "list_optint":
         return [["list", [1, "s"]], 5, ["list", [["list", [1]]]], ["dict", [["a", 1]]]]
+    if kind == "dict_optint":
+        return [["dict", [["a", "s"]]], ["dict", [[1, 1]]], ["list", [1]], 5]
     if kind == "dict_leaf":
         return [["dict", [["a", 3]]], ["dict", [[1, ["leaf", {}]]]], 5]
     if kind == "list_kitem":
@@ -720,6 +728,8 @@ def annotation_for(kind, classes, faults):
         return List[Optional[Leaf]]
     if kind == "list_optint":
         return List[Optional[int]]
+    if kind == "dict_optint":
+        return Dict[str, Optional[int]]
     if kind == "dict_leaf":
         return Dict[str, Leaf]
     if kind == "list_kitem":
